@@ -2501,7 +2501,8 @@ fn main() {
         }
     }
     let mode_name = args.str("mode", "baton");
-    if matches!(mode_name.as_str(), "baton" | "park" | "stress" | "chase" | "observers") {
+    // (the interpreter has no /proc, and it wants every thread joined before the program ends)
+    if !cfg!(miri) && matches!(mode_name.as_str(), "baton" | "park" | "stress" | "chase" | "observers") {
         start_sentinel(args.str("out", ""), args.str("prop", "all"), format!("conmon-{}", mode_name));
     }
     match mode_name.as_str() {
